@@ -788,7 +788,7 @@ class MustFacts:
                 w.add(r)
         elif k == "call":
             c = n.get("callee") or {}
-            if "obj" in n and not c.get("const"):
+            if "obj" in n and not c.get("const") and (c.get("inrepo") or c.get("nm") in MUTATING_METHODS):
                 r = lvalue_root(n["obj"])
                 if r:
                     w.add(r)
